@@ -48,6 +48,7 @@ PATTERNS = [(c, re.compile(r)) for c, r in [
     ('duplicateMessageId', r"^message with id `.*` already exists"),
     ('duplicateMemberName', r"^member with name `.*` already exists"),
     ('duplicateValidValue', r"^duplicate validValue name"),
+    ('duplicateEnumValue', r"^duplicate validValue value"),
     ('duplicateChoice', r"^duplicate choice name"),
     ('duplicateCompositeElement', r"^duplicate composite element"),
     ('invalidName', r"is not a valid SBE name$"),
@@ -59,6 +60,7 @@ PATTERNS = [(c, re.compile(r)) for c, r in [
     ('unknownEncoding', r"^encoding `.*` doesn't exist"),
     ('notAnEnum', r"^encoding `.*` is not an enum"),
     ('noSuchValidValue', r"doesn't have valid value"),
+    ('headerValueOutOfRange', r"^value `\d+` cannot be represented by (message|group) header element `.*` of type"),
     ('valueRefOutOfRange', r"^valueRef `.*` \(.*\) cannot be represented by type"),
     ('constantTooLong', r"^constant length \(\d+\) is greater than `length`"),
     ('valueOutOfRange', r"^value `(.|\n)*` cannot be represented by type"),
@@ -77,6 +79,7 @@ PATTERNS = [(c, re.compile(r)) for c, r in [
     ('headerElementRefKind', r"header element `.*` must refer to a type"),
     ('headerElementArray', r"header element `.*` must be a non-array type"),
     ('headerElementConstant', r"header element `.*` cannot be a constant"),
+    ('headerElementNotInteger', r"header element `.*` must have an integer type, got"),
     ('varDataLength', r"^data header element `.*` must have length equal to 0"),
     ('dataHeaderLayout', r"^data header `.*` must consist of `length` at offset 0 directly followed by `varData`"),
     ('fieldConstantWithoutValueRef', r"^field constant must have `valueRef`"),
@@ -327,7 +330,7 @@ def tables_tie(chk):
 def gen_schema(seed, i):
     rng = random.Random((seed * 1000003 + i) * 31 + 8)
     g = S.Gen(rng)
-    return g.schema(), g.feat
+    return M.repair(g.schema()), g.feat
 
 
 def job(args):
